@@ -715,7 +715,8 @@ def _incr_numeric(
 
     # prevent truncation of leading zeros
     if int(cur_vinfo.bid) < 1000:
-        cur_vinfo = cur_vinfo._replace(bid=str(int(cur_vinfo.bid) + 1000))
+        bid       = str(int(cur_vinfo.bid) + 1000).zfill(len(cur_vinfo.bid))
+        cur_vinfo = cur_vinfo._replace(bid=bid)
 
     cur_vinfo = cur_vinfo._replace(bid=lexid.next_id(cur_vinfo.bid))
     return _reset_rollover_fields(raw_pattern, old_vinfo, cur_vinfo)
